@@ -12,7 +12,7 @@ THEOREMS = ['Otel.C20.' + t for t in (
     'slice_spec', 'span_get_in_bounds', 'span_get_out_of_bounds', 'fixedSpan_terminates_iff',
     'sh_inv_run', 'sh_no_use_after_destroy', 'sh_never_destroyed_twice', 'sh_each_object_destroyed_exactly_once',
     'sh_self_assign_keeps', 'un_inv_run', 'un_no_use_after_destroy', 'un_never_destroyed_twice',
-    'un_each_object_destroyed_exactly_once', 'un_unique_owner',
+    'un_owned_or_destroyed_once', 'un_each_object_destroyed_exactly_once', 'un_unique_owner',
     'variant_get_holds', 'variant_get_some_iff', 'variant_visit_active', 'function_ref_applies')]
 HARNESSES = [Harness('f_c20', ['harness/f_c20.cc'])]
 H = 'f_c20'
@@ -229,15 +229,15 @@ def corpus():
 def generate(rng, tier):
     big = tier == 'thorough'
     out = []
-    for _ in range(40000 if big else 1500):
+    for _ in range(60000 if big else 5000):
         out.append(Case(gen_sv(rng), H, ('string_view',)))
-    for _ in range(6000 if big else 350):
+    for _ in range(8000 if big else 600):
         out.append(Case(gen_sp(rng), H, ('span',)))
-    for _ in range(50000 if big else 1500):
+    for _ in range(100000 if big else 5000):
         out.append(Case(gen_ptr(rng, 'shp', rng.choice([4, 8, 12, 20, 30, 60])), H, ('shared_ptr',)))
-    for _ in range(50000 if big else 1500):
+    for _ in range(100000 if big else 5000):
         out.append(Case(gen_ptr(rng, 'up', rng.choice([4, 8, 12, 20, 30, 60])), H, ('unique_ptr',)))
-    for _ in range(5000 if big else 300):
+    for _ in range(20000 if big else 1000):
         out.append(Case(gen_var(rng), H, ('variant',)))
     for _ in range(1000 if big else 80):
         out.append(Case(gen_fr(rng), H, ('function_ref',)))
